@@ -41,6 +41,10 @@
                c.outB (e.frameStatic ()); c.outB (e.initialRepeated ()); c.outB (e.parityEven ()); c.outI ((long) e.initialAxis ()); })     \
     EXTRACT ("C11Euler", e_setOrderKeeps_##O, "Euler.setOrderKeepsAngles_" #O,                                                             \
              { IN (Vec3, a); Euler<T> e (a, Euler<T>::XYZ); e.setOrder (Euler<T>::O); c.out (Vec3<T> (e.x, e.y, e.z)); c.outI ((long) e.order ()); }) \
+    EXTRACT ("C11Euler", e_copy_##O, "Euler.copyAndAssign_" #O,                                                                            \
+             { IN (Vec3, a); IN (Vec3, v); Euler<T> e (a, Euler<T>::O); Euler<T> c1 (e); Euler<T> c2; c2 = e; Euler<T> c3 (e); c3 = v;         \
+               c.out (Vec3<T> (c1.x, c1.y, c1.z)); c.outI ((long) c1.order ()); c.out (Vec3<T> (c2.x, c2.y, c2.z)); c.outI ((long) c2.order ()); \
+               c.out (Vec3<T> (c3.x, c3.y, c3.z)); c.outI ((long) c3.order ()); })                                                             \
     EXTRACT ("C11Euler", e_reorderFromXYZ_##O, "Euler.reorderFromXYZ_" #O,                                                                     \
              { IN (Vec3, a); Euler<T> s (a, Euler<T>::XYZ); Euler<T> e (s, Euler<T>::O); c.out (Vec3<T> (e.x, e.y, e.z)); c.outI ((long) e.order ()); }) \
     EXTRACT ("C11Euler", e_reorderToZYX_##O, "Euler.reorderToZYXr_" #O,                                                                     \
